@@ -239,13 +239,15 @@ struct IoOps {
             r.dg.u64(bytesDigest(bytes));
             // every cut offset of the file; only for files of several KiB (graphs of the rare large runs) the middle is sampled
             std::vector<size_t> cuts;
-            const bool sampled = bytes.size() > 768;
+            // (also when the records name hundreds of vertices: each load is then followed by a sweep of a large graph)
+            const bool wide = binary && expectedFromBinary(bytes, (size_t)-1, A::directed).m.n > 96;
+            const bool sampled = bytes.size() > 768 || (wide && bytes.size() > 6 * RB::rec);
             if (!sampled) { for (size_t k = 0; k <= bytes.size(); ++k) cuts.push_back(k); }
             else {
                 const size_t edge = 3 * (binary ? RB::rec : 16);
                 for (size_t k = 0; k <= edge; ++k) cuts.push_back(k);
                 sim::Rng cr((uint64_t)op.a * 7919 + bytes.size());
-                for (int t = 0; t < 160; ++t) cuts.push_back(edge + 1 + (size_t)cr.below(bytes.size() - 2 * edge - 1));
+                for (int t = 0; t < (wide ? 48 : 160); ++t) cuts.push_back(edge + 1 + (size_t)cr.below(bytes.size() - 2 * edge - 1));
                 for (size_t k = bytes.size() - edge; k <= bytes.size(); ++k) cuts.push_back(k);
                 r.res.probes.inc("cutall_big_file_sampled");
             }
